@@ -20,8 +20,8 @@ from . import text_common as tc, text_gen22, text_core22
 META = {
     "id": "C22", "level": "proof",
     "technique": "Coq theorems parse_print / print_idempotent over a Gallina printer and recursive-descent parser of the core .chalk fragment + differential round trip of the real writer/parser/lowering on generated programs across all listed item kinds",
-    "level_text": "Core fragment (see Props/C22.v): machine-checked that parsing the printed tokens gives back the program, for all programs with well-formed names. All item kinds/features of the property (flags, variances, reprs, lang attributes, opaque types, fn definitions, ...): differential test of the real write -> parse -> lower -> compare -> write cycle on a feature sweep and random combinations.",
-    "level_note": "Partial by construction: the Coq fragment does not cover opaque types, fn definitions, reprs, lang attributes (tested end-to-end only); the LALRPOP grammar is not translated (the model parser is a hand-written recursive descent tied to the real one through token equality of the printers and equality of the reparsed program dump).",
+    "level_text": "Core fragment (Text/RoundTrip.v: structs/enums with flags, traits with flags, positive/negative/upstream impls, quantified where-clauses of the three kinds without associated types, types: parameters, ADT applications, scalars, tuples, references, raw pointers, slices, str, never): machine-checked that parse (print p) = Some p and that printing the reparsed program reproduces the text, for all well-formed lowered programs (parse_print_partial, print_idempotent_partial; axiom-free). All item kinds/features the property lists (variances, reprs, lang attributes, associated types/values, equality bounds, const/int/float parameters, arrays, fn pointers, dyn, opaque types, fn definitions): differential test of the real write -> parse -> lower -> compare -> write cycle on a feature sweep, the pinned test programs and random combinations.",
+    "level_note": "Partial by construction: outside the Coq fragment only the end-to-end test applies (a differential test, not a theorem); the LALRPOP grammar is not translated: the model parser is a hand-written recursive descent over tokens, tied to the real code per run by (a) token equality of the model printer with the real write_items, (b) equality of the real lowering of the source with the model program, (c) the real round trip itself.",
     "design_ref": "DESIGN.md §4 C22",
     "assumptions": [
         "programs are compared through a structural dump written for this check (harness/src/bin/text/roundtrip.rs): ids, kinds, flags, variances, reprs, types, where-clause/bound SETS; parameter, field and variant names are not part of the lowered program",
@@ -30,7 +30,7 @@ META = {
     "quick_s": 60, "thorough_s": 600,
 }
 
-THEOREMS = ["parse_print_partial", "print_idempotent_partial", "parse_print_ast", "resolve_unresolve"]
+THEOREMS = ["parse_print_partial", "print_idempotent_partial", "parse_print_fuel_partial", "parse_print_ast", "resolve_unresolve"]
 
 
 def classify_known(text):
